@@ -6,6 +6,32 @@ import sys
 import traceback
 
 
+def replay(prop, path):
+    """Re-run one stored case against the current /repo.  Parser-family cases carry the script text: it is lexed, judged
+    by TLC (SieveTrace) and parsed again, and the property's judgement is printed.  Other cases are printed and the
+    property's quick check is run again (its scenarios are regenerated deterministically from the specification)."""
+    import json
+    with open(path) as fp:
+        rec = json.load(fp)
+    case = rec.get("case", rec)
+    print("stored case: %s" % json.dumps(case, ensure_ascii=False, default=str)[:1500])
+    if prop in ("C01", "C02", "C03", "C04", "C07", "C18") and isinstance(case.get("text"), str) and "layout" in case or \
+            (prop in ("C01", "C02", "C03", "C04", "C07", "C18") and case.get("source")):
+        from . import findings, ptrace
+        devs = findings.open_devs("SieveGrammar")
+        recs, cnt, st = ptrace.judge_scripts([case["text"].encode("utf-8")], devs, roundtrip=(prop == "C04"))
+        bad = [r for r in recs if prop in r["failed"] and not (r["expl"] and all(d in devs for d in r["expl"]))]
+        for r in recs:
+            print("now: failed=%s explained_by=%s observed=%s reference=%s" % (r["failed"], r["expl"], r["obs"], r["ref"]))
+        if bad:
+            print("VIOLATION property=%s replay=%s" % (prop, path))
+            return 1
+        print("no violation of %s on this input now" % prop)
+        return 0
+    import subprocess
+    return subprocess.call([os.path.join(os.path.dirname(os.path.dirname(os.path.abspath(__file__))), "check"), prop, "--tier", "quick"])
+
+
 def main():
     ap = argparse.ArgumentParser()
     ap.add_argument("prop")
@@ -14,6 +40,8 @@ def main():
     a = ap.parse_args()
     seed = int(os.environ.get("VERIF_SEED", "0") or 0)
     prop = a.prop.upper()
+    if a.replay:
+        sys.exit(replay(prop, a.replay))
     try:
         if prop in ("C01", "C02", "C03", "C04", "C07", "C18"):
             from . import c_parser
